@@ -42,7 +42,6 @@ var notYet = []struct{ ID, Reason string }{
 	{"C24", "simulation target by DESIGN.md §2/§5, but its harness is not built yet (work in progress): not claimed until the check exists"},
 	{"C25", "simulation target by DESIGN.md §2/§5, but its harness is not built yet (work in progress): not claimed until the check exists"},
 	{"C26", "simulation target by DESIGN.md §2/§5, but its harness is not built yet (work in progress): not claimed until the check exists"},
-	{"C28", "simulation target by DESIGN.md §2/§5, but its harness is not built yet (work in progress): not claimed until the check exists"},
 	{"C31", "simulation target by DESIGN.md §2/§5, but its harness is not built yet (work in progress): not claimed until the check exists"},
 	{"C34", "simulation target by DESIGN.md §2/§5, but its harness is not built yet (work in progress): not claimed until the check exists"},
 	{"C35", "simulation target by DESIGN.md §2/§5, but its harness is not built yet (work in progress): not claimed until the check exists"},
@@ -142,5 +141,6 @@ func writeManifest() error {
 }
 
 var harnessKind = map[string]string{
-	"h5db": "H5 component-history simulation: tape-generated operation histories against the three real database providers vs a sorted-map model, caller-buffer reuse as the injected fault",
+	"h1tel": "H1 telemetry simulation: real tcpClient goroutines under a seeded park/release scheduler in a synctest bubble, simulated dialer/conn with fault injection, receiver-model oracle",
+	"h5db":  "H5 component-history simulation: tape-generated operation histories against the three real database providers vs a sorted-map model, caller-buffer reuse as the injected fault",
 }
